@@ -167,11 +167,48 @@ class Injector:
         os.unlink = unlink_
 
 
+class ProfKiller:
+    """kill the writer at the n-th C-call entry/exit event (sys.setprofile) inside
+    DiskDict.__setitem__ -- every system call happens inside some C function, so stepping on the
+    entries and exits brackets all of them, whoever issues them (open, shutil, os.sendfile, ...).
+    Nothing is wrapped: files are CPython's own buffered objects."""
+
+    def __init__(self, kill_n, logfd):
+        self.kill_n, self.logfd, self.n = kill_n, logfd, 0
+
+    def note(self, obj):
+        os.write(self.logfd, (json.dumps(obj) + "\n").encode())
+
+    def hook(self, frame, event, arg):
+        if not event.startswith("c_"):
+            return
+        if self.kill_n is not None and self.n == self.kill_n:
+            os._exit(9)
+        self.n += 1
+
+    def install(self):
+        from cotengra.utils import DiskDict
+        orig = DiskDict.__setitem__
+        me = self
+
+        def patched(self_, k, v):
+            sys.setprofile(me.hook)
+            try:
+                return orig(self_, k, v)
+            finally:
+                sys.setprofile(None)
+                me.note({"prof_events": me.n})
+        DiskDict.__setitem__ = patched
+
+
 def writer_child(job, kill, logpath):
     """never returns"""
     fd = os.open(logpath, os.O_WRONLY | os.O_CREAT | os.O_TRUNC)
     try:
-        inj = Injector(job["root"], kill, fd)
+        if job.get("prof"):
+            inj = ProfKiller(None if kill is None else kill[0], fd)
+        else:
+            inj = Injector(job["root"], kill, fd)
         inj.install()
         if job["mode"] == "dd":
             from cotengra.utils import DiskDict
@@ -341,14 +378,26 @@ def build_scenario(sc, td):
 
 def run_point(sc, tmpl, info, new, kill, td, idx, deep):
     """one crash point: returns the observations"""
+    xb = None
+    if sc.get("xfs_base"):
+        # the cache lives on another file system than tempfile.gettempdir(); removed after the point
+        xb = tempfile.mkdtemp(prefix="c15x_", dir=sc["xfs_base"])
+    try:
+        return _run_point(sc, tmpl, info, new, kill, xb or td, td, idx, deep)
+    finally:
+        if xb:
+            shutil.rmtree(xb, ignore_errors=True)
+
+
+def _run_point(sc, tmpl, info, new, kill, td, logdir, idx, deep):
     root = os.path.join(td, "run%d" % idx, *sc["nest"])
     if sc["case"] == "newdir":
         os.makedirs(os.path.join(td, "run%d" % idx))
     else:
         shutil.copytree(tmpl, root)
     job = {"root": root, "mode": sc["mode"], "split": sc["split"], "key": info[0]["key"], "value": new,
-           "query": sc["pool"][0], "overwrite": sc["case"] == "overwrite"}
-    rc, log = fork_writer(job, kill, os.path.join(td, "log%d.jsonl" % idx))
+           "query": sc["pool"][0], "overwrite": sc["case"] == "overwrite", "prof": bool(sc.get("prof"))}
+    rc, log = fork_writer(job, kill, os.path.join(logdir, "log%d.jsonl" % idx))
     obs = {"kill": kill, "rc": rc, "log": log, "snap": snapshot(root)}
     keys = [e["key"] for e in info]
     if obs["snap"] is not None:
@@ -403,8 +452,13 @@ def run_jobs(ctx, jobs, timeout=1700):
         of = jf + ".out"
         with open(jf, "wb") as f:
             pickle.dump(ch, f)
+        # a private TMPDIR (same file system as the system temp directory): whatever a killed writer
+        # leaves in "the system temp directory" lands inside the check's scratch directory
+        ptmp = os.path.join(ctx.scratch, "tmp")
+        os.makedirs(ptmp, exist_ok=True)
         procs.append((wi, of, subprocess.Popen([sys.executable, HERE, "--worker", jf, of],
-                                               stdout=subprocess.PIPE, stderr=subprocess.PIPE, text=True)))
+                                               stdout=subprocess.PIPE, stderr=subprocess.PIPE, text=True,
+                                               env=dict(os.environ, TMPDIR=ptmp))))
     results = [None] * len(jobs)
     for wi, of, p in procs:
         try:
@@ -481,11 +535,67 @@ def is_prefix(a, b):
     return len(a) <= len(b) and b[: len(a)] == a
 
 
+def other_filesystem_dir():
+    """a writable directory on a different file system than tempfile.gettempdir() (st_dev differs), or None"""
+    tmpdev = os.stat(tempfile.gettempdir()).st_dev
+    for c in ("/dev/shm", os.environ.get("XDG_RUNTIME_DIR") or "", os.getcwd(), os.path.expanduser("~"), "/var/tmp"):
+        try:
+            if c and os.path.isdir(c) and os.access(c, os.W_OK) and os.stat(c).st_dev != tmpdev:
+                return c
+        except OSError:
+            pass
+    return None
+
+
+def check_store_protocol():
+    """fail-closed source check of DiskDict.__setitem__: the atomic-store protocol is a temporary file
+    in the SAME directory as the entry + os.replace (only that makes the move a rename).  Returns a
+    list of complaints (empty = follows the protocol)."""
+    import ast
+    import inspect
+    import textwrap
+    from cotengra.utils import DiskDict
+    try:
+        tree = ast.parse(textwrap.dedent(inspect.getsource(DiskDict.__setitem__)))
+    except Exception as e:
+        return ["source of DiskDict.__setitem__ not available: %r" % (e,)]
+    bad = []
+    names = {n.id for n in ast.walk(tree) if isinstance(n, ast.Name)}
+    calls = [(ast.unparse(n.func), n) for n in ast.walk(tree) if isinstance(n, ast.Call)]
+    for mod in ("tempfile", "shutil"):
+        if mod in names:
+            bad.append("uses %s.* (temporary file outside the entry's directory / a move that may copy)" % mod)
+    reps = [n for f, n in calls if f == "os.replace"]
+    if len(reps) != 1:
+        bad.append("expected exactly one os.replace(tmp, fname) call, found %d" % len(reps))
+    else:
+        src = reps[0].args[0]
+        assigned = [ast.unparse(a.value) for a in ast.walk(tree) if isinstance(a, ast.Assign)
+                    and any(isinstance(t, ast.Name) and isinstance(src, ast.Name) and t.id == src.id for t in a.targets)]
+        if not assigned or not all(("fname.with_name(" in e or "fname.parent" in e) for e in assigned):
+            bad.append("the source of os.replace is not derived from fname.with_name(...) / fname.parent: %r" % (assigned,))
+        if ast.unparse(reps[0].args[1]) != "fname":
+            bad.append("os.replace does not move onto fname")
+    for f, n in calls:
+        if f in ("os.rename", "os.link", "os.renames", "shutil.move", "shutil.copy", "shutil.copyfile"):
+            bad.append("calls %s" % f)
+    return bad
+
+
 def run(ctx):
     if not standard_proof_steps(ctx):
         return
     rng = ctx.rng
     quick = ctx.quick
+    for complaint in check_store_protocol():
+        ctx.fail("DiskDict.__setitem__ does not follow the atomic-store protocol (temporary file next to the "
+                 "entry + os.replace): " + complaint, {"check": "source of DiskDict.__setitem__", "complaint": complaint},
+                 found_input=False)
+    xfs = other_filesystem_dir()
+    ctx.coverage["filesystems"] = {"tempdir": tempfile.gettempdir(), "cache_on_other_filesystem": xfs}
+    if xfs is None:
+        ctx.notes.append("coverage gap: no writable directory on a file system other than tempfile.gettempdir() "
+                         "was found; the cross-filesystem crash exploration did not run")
     # ------------------------------------------------------------------ scenarios
     scen = []
     full = [("new", True, "dd"), ("overwrite", False, "dd")]
@@ -509,6 +619,23 @@ def run(ctx):
     for rep in range(ctx.n(2, 6)):
         scen.append((gen_scenario(rng, "newdir", rng.choice([True, False]), rng.choice(["dd", "opt"]),
                                   nest=("x", "y")), "stride" if small else "all"))
+    # the cache directory on another file system than the system temp directory: (i) the recorded-call
+    # exploration again, (ii) kills at every C-call entry/exit inside DiskDict.__setitem__ (sys.setprofile),
+    # which do not depend on the instrumented opener (shutil / os.sendfile / copyfileobj are covered);
+    # overwrite and new entry, both layouts.  (ii) also runs on the temp directory's own file system.
+    for base in ([xfs] if xfs else []) + [None]:
+        for case in ("overwrite", "new"):
+            for split in (True, False):
+                if base is not None:
+                    xs = gen_scenario(rng, case, split, "dd")
+                    xs["xfs_base"] = base
+                    scen.append((xs, "stride"))
+                if base is not None or (case == "overwrite"):
+                    ps = gen_scenario(rng, case, split, rng.choice(["dd", "dd", "opt"]))
+                    ps["xfs_base"] = base
+                    ps["prof"] = True
+                    ps["no_model"] = True
+                    scen.append((ps, "stride" if quick else "all"))
     for i, (sc, _) in enumerate(scen):
         sc["sid"] = i
     # dry runs: the sequence of calls of each scenario's writer
@@ -525,6 +652,14 @@ def run(ctx):
             continue
         events = [tuple(l["ev"]) for l in d["points"][0]["log"] if "ev" in l]
         sc["events"] = events
+        if sc.get("prof"):
+            nev = max([l["prof_events"] for l in d["points"][0]["log"] if "prof_events" in l] or [0])
+            sc["prof_events"] = nev
+            ns_ = list(range(nev + 1))
+            if how == "stride" and nev > 40:
+                ns_ = sorted(set(range(0, nev + 1, max(1, nev // 56))) | set(range(nev - 6, nev + 1)) | set(range(6)))
+            jobs.append((sc, [((n_, None), j % 4 == 0) for j, n_ in enumerate(ns_)]))
+            continue
         pts = []
         for i, ev in enumerate(events):
             pts.append((i, None))
@@ -550,7 +685,7 @@ def run(ctx):
     prelude = {}
     variant_seen = set()
     for jid, ((sc, pts), res) in enumerate(zip(flat, results)):
-        desc = {k: sc[k] for k in ("case", "split", "mode", "pool", "nest", "alt_path", "pad")}
+        desc = {k: sc.get(k) for k in ("case", "split", "mode", "pool", "nest", "alt_path", "pad", "xfs_base", "prof")}
         if res is None or "error" in res:
             ctx.fail("crash scenario could not be run", {"scenario": desc, "error": (res or {}).get("error")},
                      found_input=False)
@@ -558,7 +693,8 @@ def run(ctx):
         info, new = res["info"], res["new"]
         events = sc["events"]
         fixed_writer = any(e[0] == "replace" for e in events)
-        variant_seen.add("fix" if fixed_writer else "cur")
+        if not sc.get("prof"):
+            variant_seen.add("fix" if fixed_writer else "cur")
         ops = "ops_fix" if fixed_writer else "ops_cur"
         setops = "setitem_ops_fix" if fixed_writer else "setitem_ops_cur"
         wts = weights(events)
@@ -589,6 +725,8 @@ def run(ctx):
         for (kill, deep), ob in zip(pts, res["points"]):
             rep = {"scenario": desc, "kill_call": kill[0], "kill_after_bytes": kill[1],
                    "calls": [list(e) for e in events], "writer_log": ob["log"][-4:],
+                   "kill_mode": ("C-call event number kill_call of %s inside DiskDict.__setitem__ (sys.setprofile)"
+                                 % sc.get("prof_events")) if sc.get("prof") else "recorded file-system call",
                    "directory_after_crash": [
                        (list(p), None if b is None else (b.hex() if len(b) <= 400 else
                                                          b[:100].hex() + "...(%d bytes)" % len(b)))
@@ -609,8 +747,13 @@ def run(ctx):
             else:
                 new_con = new
             n_model = sum(wts[: kill[0]]) + (kill[1] or 0)
-            ctx.count("crash_before_%s" % (events[kill[0]][0] if kill[0] < len(events) else "exit")
-                      if kill[1] is None else "crash_inside_write")
+            if sc.get("prof"):
+                ctx.count("crash_at_c_call_inside_setitem")
+            else:
+                ctx.count("crash_before_%s" % (events[kill[0]][0] if kill[0] < len(events) else "exit")
+                          if kill[1] is None else "crash_inside_write")
+            if sc.get("xfs_base"):
+                ctx.count("cache_on_other_filesystem")
             ctx.case((repr(desc), kill), nontrivial=True,
                      sample=rep if len(ctx.coverage["samples"]) < 3 and kill[1] else None)
             # ---------------- oracle -----------------------------------------------------
@@ -638,6 +781,11 @@ def run(ctx):
                     if (not okm) and m is not None and m[1] == "UnboundLocalError" and qi == 0 and torn:
                         known = "diskdict-torn-write"
                     complete_vals = [c for c in (new_con, old_con) if c is not None]
+                    if READERS[v]["cache_only"] and qi == 0 and j == 0 and not okm and sc["case"] == "overwrite" \
+                            and old_con is not None and known is None:
+                        ctx.fail("the entry that was being overwritten when the writer died is lost: it was stored "
+                                 "before the crash and a later cache_only process raises %r" % (m,), rep_q)
+                        continue
                     if READERS[v]["cache_only"] and qi == 0 and j == 0 and not okm:
                         # documented: KeyError on a miss (the entry may legitimately be absent)
                         if m is None or m[1] != "KeyError":
@@ -675,6 +823,9 @@ def run(ctx):
                         ctx.count("reader_hit_on_target")
                     elif searched:
                         ctx.count("reader_searched_again")
+                        if j == 0 and sc["case"] == "overwrite" and READERS[v]["overwrite"] is False:
+                            ctx.fail("the entry that was being overwritten when the writer died is lost: a later "
+                                     "process had to search the contraction again", rep_q)
                     if j == len(rrecs) - 1 and qi == 0 and READERS[v]["overwrite"] != "improved" and searched:
                         ctx.fail("after repairing the entry the same process searched again", rep_q)
                     if "tree" in r:
